@@ -224,6 +224,41 @@ def gen(seed, run, tier='quick'):
                 scenario_probes = [(rng.choice(['qq', 'qu', 'uq']) +
                                     ('/' if e == 1 else '*'), w, tu)
                                    for _ in range(2)]
+    if rng.random() < 0.15:
+        # scenario: a type is rejected because its reference symbol is
+        # taken, later the same dimension is declared properly; operations
+        # of that dimension must then give instances of the declared type
+        refs = [t for t in model.types_with_ref()
+                if not model.types[t]['catalogue']] or \
+            model.types_with_ref()
+        if len(refs) >= 1 and model.uorder:
+            ta, tb = rng.choice(refs), rng.choice(refs)
+            e = rng.choice([1, 1, -1]) if ta != tb else 1
+            items = [[ta, 1], [tb, e]]
+            dim = {}
+            for tn, ee in decl.merge_items(items):
+                dim = decl.dim_add(dim, model.types[tn]['dim'], ee)
+            if dim and decl.dim_key(dim) not in model.dims:
+                n = model.fresh()
+                noise.append({'a': 'derived_type', 'name': f'D{n}',
+                              'items': items, 'style': rng.randrange(3),
+                              'ref_sym': rng.choice(model.uorder),
+                              'auto_ref': False, 'quantum': None,
+                              'expect': 'reject', 'bad': 'dup_symbol',
+                              'after': len(decls)})
+                n = model.fresh()
+                act = {'a': 'derived_type', 'name': f'D{n}',
+                       'clsname': f'D{n - 1}' if rng.random() < 0.5
+                       else f'D{n}', 'items': items,
+                       'style': rng.randrange(3), 'ref_sym': f'a{n}',
+                       'auto_ref': False, 'quantum': None,
+                       'expect': 'accept', 'dup_dim': False}
+                decl.apply(model, act)
+                decls.append(act)
+                ra, rb = model.types[ta]['ref'], model.types[tb]['ref']
+                scenario_probes += [
+                    (rng.choice(['uu', 'qq', 'qu']) +
+                     ('*' if e == 1 else '/'), ra, rb) for _ in range(2)]
     # ---- probes
     syms = list(model.uorder)
     user_syms = syms[n_given:] or syms
@@ -454,7 +489,15 @@ def run_world(arg):
                 vec[elem.symbol] = vec.get(elem.symbol, 0) + e
             else:
                 num *= _fr(elem) ** e
-        return ['qty', unit.qty_cls.__name__, str(_fr(amnt) * num),
+        # the declared type by identity (two classes may share a name; a
+        # class nobody declared successfully is a ghost), and whether the
+        # unit is the declared object of that symbol
+        tkey = next((k for k, c in env.types.items()
+                     if c is unit.qty_cls), 'ghost:' +
+                    unit.qty_cls.__name__)
+        if env.units.get(unit.symbol) is not unit:
+            tkey += '/ghost-unit'
+        return ['qty', tkey, str(_fr(amnt) * num),
                 sorted(vec.items()), unit.symbol]
 
     def evaluate(p):
